@@ -8,6 +8,12 @@
 mod layoutser;
 
 use allsorts::binary::read::ReadScope;
+use allsorts::error::{ParseError, ShapingError};
+use allsorts::gpos::Info;
+use allsorts::tables::FontTableProvider;
+use allsorts::Font;
+use std::borrow::Cow;
+use std::collections::HashMap;
 use allsorts::gsub::{self, FeatureInfo, Features, GlyphOrigin, RawGlyph, RawGlyphFlags};
 use allsorts::layout::{new_layout_cache, GDEFTable, LayoutTable, GSUB};
 use allsorts::tables::variable_fonts::fvar::Tuple;
@@ -272,11 +278,113 @@ fn fmt_glyphs(gs: &[RawGlyph<()>]) -> String {
 // ---------------------------------------------------------------------------------------------------
 // run one case on the real code
 
+// ---------------------------------------------------------------------------------------------------
+// Font::shape on a synthetic font (the optional sixth element of a case)
+
+struct MapProvider(HashMap<u32, Vec<u8>>);
+
+impl FontTableProvider for MapProvider {
+    fn table_data(&self, tag: u32) -> Result<Option<Cow<'_, [u8]>>, ParseError> {
+        Ok(self.0.get(&tag).map(|v| Cow::Borrowed(v.as_slice())))
+    }
+    fn has_table(&self, tag: u32) -> bool {
+        self.0.contains_key(&tag)
+    }
+    fn table_tags(&self) -> Option<Vec<u32>> {
+        Some(self.0.keys().copied().collect())
+    }
+}
+
+/// glyph id the synthetic cmap gives U+25CC (what Font::shape hands to gsub::apply as dotted_circle_index)
+const DOTTED_CIRCLE_GLYPH: u16 = 7;
+
+/// cmap (format 4: U+25CC -> DOTTED_CIRCLE_GLYPH, nothing else) + head + maxp (num_glyphs) + hhea + hmtx, plus the
+/// layout tables the case prescribes
+fn synthetic_font(num_glyphs: u16, extra: Vec<(u32, Vec<u8>)>) -> Font<MapProvider> {
+    let mut t = HashMap::new();
+    let be16 = |v: i64| (v as u16).to_be_bytes().to_vec();
+    let mut cmap = vec![];
+    let delta = (DOTTED_CIRCLE_GLYPH as i64 - 0x25CC) & 0xFFFF;
+    for v in [0i64, 1, 3, 1, 0, 12, 4, 32, 0, 4, 4, 1, 0, 0x25CC, 0xFFFF, 0, 0x25CC, 0xFFFF, delta, 1, 0, 0] {
+        cmap.extend(be16(v));
+    }
+    t.insert(allsorts::tag::CMAP, cmap);
+    let mut head = vec![];
+    for v in [1i64, 0, 1, 0, 0, 0, 0x5F0F, 0x3CF5, 0, 1000] {
+        head.extend(be16(v));
+    }
+    head.extend(vec![0u8; 16]);
+    for v in [0i64, 0, 0, 0, 0, 8, 2, 0, 0] {
+        head.extend(be16(v));
+    }
+    t.insert(allsorts::tag::HEAD, head);
+    let mut maxp = vec![0, 0, 0x50, 0];
+    maxp.extend(be16(num_glyphs as i64));
+    t.insert(allsorts::tag::MAXP, maxp);
+    let mut hhea = vec![];
+    for v in [1i64, 0, 800, -200, 0, 1000, 0, 0, 0, 1, 0, 0, 0, 0, 0, 0, 0, 1] {
+        hhea.extend(be16(v));
+    }
+    t.insert(allsorts::tag::HHEA, hhea);
+    t.insert(allsorts::tag::HMTX, vec![1, 244, 0, 0]);
+    for (tg, data) in extra {
+        t.insert(tg, data);
+    }
+    Font::new(MapProvider(t)).expect("synthetic font")
+}
+
+fn fmt_shaping_err(e: &ShapingError) -> String {
+    match e {
+        ShapingError::Parse(e) => avh::perr(e).to_string(),
+        e => format!("{:?}", e),
+    }
+}
+
+fn fmt_infos(infos: &[Info]) -> String {
+    infos.iter().map(|i| fmt_glyph(&i.glyph)).collect::<Vec<_>>().join(",")
+}
+
+/// the tables of the font envelope `(gpos gdef kern kerning morx)`; see ocaml/c04/drv.ml
+fn envelope_tables(font: &[i64], gsub: &[u8], gdef: Option<&Vec<u8>>) -> Vec<(u32, Vec<u8>)> {
+    let mut v = vec![(allsorts::tag::GSUB, gsub.to_vec())];
+    let words = |w: &[u16]| -> Vec<u8> { w.iter().flat_map(|x| x.to_be_bytes()).collect() };
+    match font[0] {
+        0 => {}
+        // GPOS 1.0 without lists (NULL offsets)
+        1 => v.push((allsorts::tag::GPOS, ser_layout_table(None, None, None))),
+        // truncated after the version
+        2 => v.push((allsorts::tag::GPOS, words(&[1, 0, 10]))),
+        // GPOS 1.0 with an empty script list, feature list and lookup list
+        _ => v.push((allsorts::tag::GPOS, words(&[1, 0, 10, 12, 14, 0, 0, 0]))),
+    }
+    match font[1] {
+        0 => {}
+        1 => {
+            if let Some(b) = gdef {
+                v.push((allsorts::tag::GDEF, b.clone()));
+            }
+        }
+        _ => v.push((allsorts::tag::GDEF, vec![0, 1])),
+    }
+    match font[2] {
+        0 => {}
+        // kern version 0 without subtables
+        1 => v.push((allsorts::tag::KERN, words(&[0, 0]))),
+        _ => v.push((allsorts::tag::KERN, vec![0, 0, 0])),
+    }
+    if font[4] != 0 {
+        v.push((allsorts::tag::MORX, vec![0, 2, 0]));
+    }
+    v
+}
+
 fn run_case(input: &str) -> String {
     let tree = parse_tree(&input[1..]);
     let top = tree.list();
     let gdef_bytes = ser_gdef(&top[0]);
-    let fvx = top.get(4);
+    // `()` in the fifth place: no feature-variations element (a font envelope follows)
+    let fvx = top.get(4).filter(|x| !x.list().is_empty());
+    let envelope: Option<Vec<i64>> = top.get(5).map(|f| f.ints());
     let gsub_bytes = ser_gsub(&top[1], fvx);
     let tuple_values = tuple_of(fvx);
     let tuple = tuple_values.as_deref().map(as_tuple);
@@ -287,75 +395,89 @@ fn run_case(input: &str) -> String {
         },
         None => None,
     };
-    let table = match ReadScope::new(&gsub_bytes).read::<LayoutTable<GSUB>>() {
-        Ok(t) => t,
-        Err(e) => return format!("gsub-unreadable:{}", avh::perr(&e)),
-    };
-    let cache = new_layout_cache(table);
-    let mut glyphs: Vec<RawGlyph<()>> = top[3].list().iter().map(mk_glyph).collect();
     let run = top[2].list();
-    if run[0].int() == 0 {
-        let feats: Vec<FeatureInfo> = run[3]
-            .list()
-            .iter()
-            .map(|f| FeatureInfo {
-                feature_tag: f.list()[0].int() as u32,
-                alternate: f.list()[1].opt().map(|a| a.int() as usize),
-            })
-            .collect();
-        let r = gsub::apply(
-            0,
-            &cache,
-            gdef.as_ref(),
-            run[1].int() as u32,
-            run[2].opt().map(|l| l.int() as u32),
-            &Features::Custom(feats),
-            tuple,
-            run[4].int() as u16,
-            &mut glyphs,
-        );
-        match r {
-            Ok(()) => format!("ok:{}", fmt_glyphs(&glyphs)),
-            Err(allsorts::error::ShapingError::Parse(e)) => format!("err:{}", avh::perr(&e)),
-            Err(e) => format!("err:{:?}", e),
-        }
+    let glyphs: Vec<RawGlyph<()>> = top[3].list().iter().map(mk_glyph).collect();
+    let features = if run[0].int() == 0 {
+        Some(Features::Custom(
+            run[3]
+                .list()
+                .iter()
+                .map(|f| FeatureInfo {
+                    feature_tag: f.list()[0].int() as u32,
+                    alternate: f.list()[1].opt().map(|a| a.int() as usize),
+                })
+                .collect(),
+        ))
     } else if run[0].int() == 2 {
         // Features::Mask; the FRAC split of gsub_apply_default is not modelled: the generator never sets that bit
-        let mask = gsub::FeatureMask::from_bits_truncate(run[3].int() as u64);
-        let r = gsub::apply(
-            0,
-            &cache,
-            gdef.as_ref(),
-            run[1].int() as u32,
-            run[2].opt().map(|l| l.int() as u32),
-            &Features::Mask(mask),
-            tuple,
-            run[4].int() as u16,
-            &mut glyphs,
-        );
-        match r {
-            Ok(()) => format!("ok:{}", fmt_glyphs(&glyphs)),
-            Err(allsorts::error::ShapingError::Parse(e)) => format!("err:{}", avh::perr(&e)),
-            Err(e) => format!("err:{:?}", e),
-        }
+        Some(Features::Mask(gsub::FeatureMask::from_bits_truncate(run[3].int() as u64)))
     } else {
-        let r = gsub::gsub_apply_lookup(
-            &cache,
-            &cache.layout_table,
-            gdef.as_ref(),
-            run[1].int() as usize,
-            run[2].int() as u32,
-            run[3].opt().map(|a| a.int() as usize),
-            &mut glyphs,
-            run[4].int() as usize,
-            run[5].int() as usize,
-            |_| true,
-        );
-        match r {
-            Ok(len) => format!("ok:{}|{}", fmt_glyphs(&glyphs), len),
-            Err(e) => format!("err:{}", avh::perr(&e)),
+        None
+    };
+    // gsub::apply called directly, with the GDEF given
+    let direct = |gdef: Option<&GDEFTable>, dotted: u16| -> String {
+        let table = match ReadScope::new(&gsub_bytes).read::<LayoutTable<GSUB>>() {
+            Ok(t) => t,
+            Err(e) => return format!("gsub-unreadable:{}", avh::perr(&e)),
+        };
+        let cache = new_layout_cache(table);
+        let mut glyphs = glyphs.clone();
+        if let Some(features) = &features {
+            let r = gsub::apply(
+                dotted,
+                &cache,
+                gdef,
+                run[1].int() as u32,
+                run[2].opt().map(|l| l.int() as u32),
+                features,
+                tuple,
+                run[4].int() as u16,
+                &mut glyphs,
+            );
+            match r {
+                Ok(()) => format!("ok:{}", fmt_glyphs(&glyphs)),
+                Err(e) => format!("err:{}", fmt_shaping_err(&e)),
+            }
+        } else {
+            let r = gsub::gsub_apply_lookup(
+                &cache,
+                &cache.layout_table,
+                gdef,
+                run[1].int() as usize,
+                run[2].int() as u32,
+                run[3].opt().map(|a| a.int() as usize),
+                &mut glyphs,
+                run[4].int() as usize,
+                run[5].int() as usize,
+                |_| true,
+            );
+            match r {
+                Ok(len) => format!("ok:{}|{}", fmt_glyphs(&glyphs), len),
+                Err(e) => format!("err:{}", avh::perr(&e)),
+            }
         }
-    }
+    };
+    let font = match (envelope, &features) {
+        (Some(f), Some(_)) if f.len() == 5 => f,
+        _ => return direct(gdef.as_ref(), 0),
+    };
+    // Font::shape: the font decides which GSUB / GDEF / glyph count / dotted circle reach gsub::apply
+    let mut f = synthetic_font(run[4].int() as u16, envelope_tables(&font, &gsub_bytes, gdef_bytes.as_ref()));
+    let r = f.shape(
+        glyphs.clone(),
+        run[1].int() as u32,
+        run[2].opt().map(|l| l.int() as u32),
+        features.as_ref().unwrap(),
+        tuple,
+        font[3] != 0,
+    );
+    let shaped = match &r {
+        Ok(infos) => format!("shape[-] ok:{}", fmt_infos(infos)),
+        Err((e, infos)) => format!("shape[{}] ok:{}", fmt_shaping_err(e), fmt_infos(infos)),
+    };
+    // model-independent reference: gsub::apply on the same GSUB bytes with the GDEF the font carries
+    let font_gdef = if font[1] == 1 { gdef.as_ref() } else { None };
+    format!("{} ~ {}", shaped, direct(font_gdef, DOTTED_CIRCLE_GLYPH))
 }
 
 pub fn run(input: &str) -> String {
@@ -1183,6 +1305,21 @@ pub fn gen(rng: &mut Rng) -> String {
     let mut frng = Rng::new(h);
     if (run_is_apply && frng.chance(1, 2)) || (!run_is_apply && frng.chance(1, 12)) {
         top.push(gen_fv(&mut frng, nfeat, nlookups));
+    }
+    // Font::shape: half of the gsub::apply runs go through the public entry point on a synthetic font (sixth
+    // element, drawn from the same private generator after the feature-variations element, so that everything
+    // before it is unchanged): with / without / with an unreadable GPOS table, the case's GDEF in the font or not,
+    // kern table, kerning flag, a stray morx table.  `()` stands for "no feature variations" in the fifth place.
+    if run_is_apply && frng.chance(1, 2) {
+        if top.len() == 4 {
+            top.push(T::L(vec![]));
+        }
+        let gpos = *frng.pick(&[0i64, 0, 0, 0, 1, 1, 1, 3, 3, 2]);
+        let gdefk = if frng.chance(1, 5) { *frng.pick(&[0i64, 0, 0, 2]) } else { 1 };
+        let kern = *frng.pick(&[0i64, 0, 0, 0, 0, 1, 1, 1, 1, 2]);
+        let kerning = frng.below(2) as i64;
+        let morx = if frng.chance(1, 20) { 1 } else { 0 };
+        top.push(T::of_ints(&[gpos, gdefk, kern, kerning, morx]));
     }
     format!("{} {}", build_mode(), T::L(top))
 }
